@@ -174,14 +174,21 @@ func runC05(e *Env) error {
 	seedTemplates = append(seedTemplates,
 		"{% extends 'base' %}{% block c %}{{ parent() }}{% endblock %}", "{% import 'lib' as l %}{{ l.m(1) }}", "{% from 'lib' import m as q %}{{ q() }}",
 		"{% macro a(x, y = 1) %}{{ x }}{% endmacro %}{{ a(1) }}{{ _self.a(2) }}", "{% apply upper %}x{% endapply %}", "{% verbatim %}{{ x }}{% endverbatim %}", "{% spaceless %}<a> <b></b> </a>{% endspaceless %}",
-		"{% do 1 + 2 %}{% do x = 3 %}", "{% include ['a', 'b'] %}", "{% block a %}x{% block a %}y{% endblock %}{% endblock %}", "{%extends \"%}", "{%include '%}", "{{-}}", "{%-%}", "{% for %}", "{% if %}", "{% set %}", "{% from 'a' import %}")
-	frags := []string{"{{", "}}", "{%", "%}", "{#", "#}", "-", "{{-", "-%}", " in ", " with ", " as ", " import ", "=", "'", "\"", "\\", "|", "(", ")", "[", "]", "{", "}", ",", ".", ":", "?", "endif", "endfor", "else", "elseif", "endblock", "endmacro", "\x00", "\xff", "é", "  "}
+		"{% do 1 + 2 %}{% do x = 3 %}", "{% include ['a', 'b'] %}", "{% block a %}x{% block a %}y{% endblock %}{% endblock %}", "{%extends \"%}", "{%include '%}", "{{-}}", "{%-%}", "{% for %}", "{% if %}", "{% set %}", "{% from 'a' import %}",
+		// keywords in other letter cases next to letters whose case mapping changes the byte length (Ⱥ 2→3 bytes, İ 2→3, K 3→1, ẞ 3→2)
+		"{% for ȺȺ in xs %}{{ ȺȺ }}{% endfor %}", "{% FOR Ⱥ IN xs %}x{% ENDFOR %}", "{% for \xff\xff\xff IN xs %}{% endfor %}", "{% from 'lib' IMPORT m AS İİ %}", "{% import 'lib' AS KK %}{{ KK.m(1) }}",
+		"{% SET ẞ = 1 %}{{ ẞ }}", "{% for k, Ⱥ in user %}{{ k }}{% endfor %}", "{% If İ %}x{% EndIf %}", "{% from 'lib' import m as ȺȺȺȺȺȺȺȺ %}")
+	frags := []string{"{{", "}}", "{%", "%}", "{#", "#}", "-", "{{-", "-%}", " in ", " with ", " as ", " import ", "=", "'", "\"", "\\", "|", "(", ")", "[", "]", "{", "}", ",", ".", ":", "?", "endif", "endfor", "else", "elseif", "endblock", "endmacro", "\x00", "\xff", "é", "  ", "Ⱥ", "İ", "K", "ẞ", " IN ", "FOR ", " AS ", "IMPORT ", "ȺȺȺ"}
 	ctx := map[string]any{"n": 3, "s": "str", "xs": []interface{}{1, 2}, "user": map[string]interface{}{"name": "x"}, "t": true}
 	libs := map[string]string{"t2": "{{ v }}", "base": "[{% block c %}b{% endblock %}]", "lib": "{% macro m(a) %}M{{ a }}{% endmacro %}"}
 	n := e.N(6000, 400000)
 	for i := 0; i < n && !r.Full(); i++ {
 		var src string
-		if i%10 == 0 {
+		if i < len(seedTemplates) {
+			src = seedTemplates[i] // every seed once as it is
+		} else if i < 2*len(seedTemplates) {
+			src = seedTemplates[i-len(seedTemplates)] + strings.Repeat(" ", 4100) // and once through the large-template tokenizer
+		} else if i%10 == 0 {
 			src = genRaw(rg, 60)
 		} else {
 			src = pick(rg, seedTemplates)
